@@ -122,4 +122,11 @@ func TestScenario(t *testing.T) {
 	run(OLVM(e0, OLVMArgs{ChainID: p.ChainID, Nonce: 1, To: nil, Data: code, Fee: Fee{Price: big.NewInt(1000000000), Cur: "OLT", Gas: 200000}}))
 	d := r.Dump()
 	fmt.Fprintf(out, "keys=%d\n", len(d))
+	for _, kv := range d {
+		v := string(kv.V)
+		if len(v) > 150 {
+			v = v[:150] + "..."
+		}
+		fmt.Fprintf(out, "KEY %q = %q\n", kv.K, v)
+	}
 }
